@@ -3,6 +3,7 @@ package main
 // Calls: builtins, contracts, inlining, havoc; guarded-field checks; function verification.
 
 import (
+	"go/token"
 	"fmt"
 	"go/types"
 	"sort"
@@ -149,10 +150,56 @@ func (x *Exec) doCallVals(st *State, c *ssa.CallCommon, fnv Val, args []Val, con
 		callee = sc
 	}
 	if callee == nil {
+		// a call through a func-typed struct field (`gc.cleanPortFunc(x)`): a contract may be given
+		// for the field, keyed like a method of the struct: `func (*T).field trusted ...`
+		if con, name, recv := x.fieldFuncContract(st, c); con != nil {
+			names := []string{"self"}
+			ps := sig.Params()
+			for i := 0; i < ps.Len(); i++ {
+				n := ps.At(i).Name()
+				if n == "" || n == "_" {
+					n = fmt.Sprintf("arg%d", i)
+				}
+				names = append(names, n)
+			}
+			x.applyContract(st, con, name, names, append([]Val{recv}, args...), sig, cont, ins)
+			return
+		}
 		x.unknownCall(st, "dynamic call", sig, args, cont)
 		return
 	}
 	x.callFunction(st, callee, bindings, args, sig, cont, ins)
+}
+
+// fieldFuncContract: the callee value is `*(&recv.field)` with recv a pointer to a named struct of a
+// galaxy package that has a contract `(*T).field`.
+func (x *Exec) fieldFuncContract(st *State, c *ssa.CallCommon) (*Contract, string, Val) {
+	ld, ok := c.Value.(*ssa.UnOp)
+	if !ok || ld.Op != token.MUL {
+		return nil, "", Val{}
+	}
+	fa, ok := ld.X.(*ssa.FieldAddr)
+	if !ok {
+		return nil, "", Val{}
+	}
+	pt, ok := fa.X.Type().Underlying().(*types.Pointer)
+	if !ok {
+		return nil, "", Val{}
+	}
+	nt, ok := pt.Elem().(*types.Named)
+	if !ok || nt.Obj().Pkg() == nil {
+		return nil, "", Val{}
+	}
+	stt, ok := nt.Underlying().(*types.Struct)
+	if !ok {
+		return nil, "", Val{}
+	}
+	key := nt.Obj().Pkg().Path() + "::(*" + nt.Obj().Name() + ")." + stt.Field(fa.Field).Name()
+	con := x.db.Contracts[key]
+	if con == nil {
+		return nil, "", Val{}
+	}
+	return con, "(*" + nt.Obj().Name() + ")." + stt.Field(fa.Field).Name() + " [func field]", x.operand(st, fa.X)
 }
 
 // libraryModel: built-in effect models for a few reflection-based library functions whose
